@@ -12,6 +12,7 @@ CONSTANTS
   LimOther = 1
   MaxOps = 3
   MaxInject = 1
+  MaxCloses = 2
   MaxRoleChanges = 1
   OnlyDiscover = FALSE
   Dials <- MCDials
